@@ -705,6 +705,46 @@ pub fn gen_boundary_number(rng: &mut Rng, out: &mut Vec<u8>) {
     }
 }
 
+/// A numeric character escape with a digit count around the guards of the
+/// decoders (24-bit limit, fixed-width \\u / \\U forms), bare or inside a string.
+pub fn gen_boundary_escape(rng: &mut Rng, out: &mut Vec<u8>) {
+    let (prefix, radix, suffix): (&[u8], u32, &[u8]) = *rng.pick(&[
+        (&b"\\"[..], 8, &b""[..]),
+        (b"\\x", 16, b""),
+        (b"\\x", 16, b";"),
+        (b"\\u", 16, b""),
+        (b"\\U", 16, b""),
+        (b"\\N{U+", 16, b"}"),
+        (b"#\\x", 16, b""),
+        (b"?\\x", 16, b""),
+        (b"?\\", 8, b""),
+        (b"?\\N{U+", 16, b"}"),
+    ]);
+    let in_string = prefix[0] == b'\\' && rng.chance(4, 5);
+    if in_string {
+        out.push(b'"');
+        if rng.coin() {
+            out.push(b'a');
+        }
+    }
+    out.extend_from_slice(prefix);
+    let n = *rng.pick(&[1usize, 2, 3, 4, 5, 6, 7, 8, 9, 10, 11, 12, 13, 20, 40]);
+    let lead = *rng.pick(&[1u32, 1, radix - 1, 3]);
+    for i in 0..n {
+        let d = if i == 0 { lead } else if rng.chance(1, 2) { 0 } else { rng.below(u64::from(radix)) as u32 };
+        out.push(std::char::from_digit(d, radix).unwrap() as u8);
+    }
+    out.extend_from_slice(suffix);
+    if in_string {
+        if rng.coin() {
+            out.push(b'z');
+        }
+        if rng.chance(5, 6) {
+            out.push(b'"');
+        }
+    }
+}
+
 pub fn gen_soup(rng: &mut Rng, max_frags: usize) -> Vec<u8> {
     let n = 1 + rng.small(max_frags);
     let mut out = Vec::new();
@@ -713,6 +753,8 @@ pub fn gen_soup(rng: &mut Rng, max_frags: usize) -> Vec<u8> {
             out.push(rng.byte());
         } else if rng.chance(1, 10) {
             gen_boundary_number(rng, &mut out);
+        } else if rng.chance(1, 10) {
+            gen_boundary_escape(rng, &mut out);
         } else {
             out.extend_from_slice(*rng.pick(FRAGMENTS));
         }
@@ -968,7 +1010,7 @@ const ELISP_ESCAPES: &[&[u8]] = &[
     b"\\x41", b"\\xe9", b"\\xc3", b"\\xa9", b"\\x3bb", b"\\x1F600", b"\\xD800", b"\\x110000",
     b"\\351", b"\\303", b"\\251", b"\\777", b"\\7777777", b"\\u00e9", b"\\uD800", b"\\uDFFF",
     b"\\U0001F600", b"\\U00110000", b"\\U0000D800", b"\\N{U+e9}", b"\\N{U+D800}", b"\\N{U+110000}",
-    b"\\^a", b"\\n", b"\\\\", b"\\\"", b"\\ ", b"\\x80", b"\\200",
+    b"\\^a", b"\\n", b"\\\\", b"\\\"", b"\\ ", b"\\x80", b"\\200", b"\\1000000000", b"\\37777777777", b"\\x1000000000",
 ];
 
 fn utf8_body(rng: &mut Rng, out: &mut Vec<u8>, escapes: Option<&[&[u8]]>, long: bool, forbid: &[u8]) {
